@@ -47,6 +47,14 @@ def cases(draw, tier):
     return c
 
 
+@st.composite
+def hollow(draw, tier):
+    c = draw(gen.hollow_cases())
+    c["capacity"] = draw(st.sampled_from(kprops.CAPACITIES))
+    c["revaluations"] = []
+    return c
+
+
 def check(case, ctx=None):
     labels = set(gen.case_features(case))
     fails, info = [], {}
@@ -149,7 +157,8 @@ def check_huge(case, ctx=None):
     return result(fails, labels, loops >= 1, kcheck.case_id(c) + str(case["huge"]), s, {"kernel_runs": 6, "huge_runs": 3})
 
 
-STREAMS = {"main": {"strategy": cases, "check": check}, "huge": {"strategy": huge_cases, "check": check_huge}}
+STREAMS = {"main": {"strategy": cases, "check": check}, "huge": {"strategy": huge_cases, "check": check_huge},
+           "hollow": {"strategy": hollow, "check": check}}
 
 
 def shrink_case(case, bucket):
@@ -195,6 +204,7 @@ def run(chk):
     n = 560 if chk.tier == "quick" else 30000
     chk.absorb(run_stream(__name__, "main", chk.tier, chk.seed, n), shrink=shrink_case)
     chk.absorb(run_stream(__name__, "huge", chk.tier, chk.seed, 320 if chk.tier == "quick" else 12000), shrink=shrink_huge)
+    chk.absorb(run_stream(__name__, "hollow", chk.tier, chk.seed, 160 if chk.tier == "quick" else 6000), shrink=shrink_case)
     if chk.tier != "quick":
         from ..runner import coverage_guided
 
